@@ -66,6 +66,8 @@ def rel_to_z3(p, rel):
 
 
 def symbool_to_z3(b):
+    if hasattr(b, "e"):
+        return b.e
     return rel_to_z3(b.p, b.rel)
 
 
@@ -84,6 +86,7 @@ def context_constraints(include_nonzero=True):
             cs.append(poly_to_z3(f) != 0)
     if ctx.path is not None:
         cs += [symbool_to_z3(b) for b in ctx.path.pc]
+    cs += list(EXTRA)
     return cs
 
 
@@ -346,3 +349,130 @@ def smt2_of(constraints):
     for c in constraints:
         s.add(c)
     return s.to_smt2()
+
+
+# ---------------------------------------------------------------------------
+# generic z3-valued symbols (flags, bounded ints, crash indices)
+# ---------------------------------------------------------------------------
+class ZBool:
+    """Symbolic Boolean wrapping an arbitrary z3 BoolRef; bool() forks through the path manager."""
+
+    __slots__ = ("e",)
+
+    def __init__(self, e):
+        self.e = e
+
+    def __bool__(self):
+        if isinstance(self.e, bool):
+            return self.e
+        if z3.is_true(self.e):
+            return True
+        if z3.is_false(self.e):
+            return False
+        if ctx.path is None:
+            raise SymbolicEscape("branch on symbolic z3 condition outside a path manager: %s" % self.e)
+        return ctx.path.decide(self)
+
+    def negate(self):
+        return ZBool(z3.Not(self.e))
+
+    __invert__ = negate
+
+    def __and__(self, o):
+        return ZBool(z3.And(self.e, o.e if isinstance(o, ZBool) else o))
+
+    def __or__(self, o):
+        return ZBool(z3.Or(self.e, o.e if isinstance(o, ZBool) else o))
+
+    def __repr__(self):
+        return "ZBool(%s)" % self.e
+
+
+class ZInt:
+    """Symbolic integer wrapping a z3 ArithRef (Int). Comparisons give ZBool; int() escapes."""
+
+    __slots__ = ("e",)
+
+    def __init__(self, e):
+        self.e = z3.Int(e) if isinstance(e, str) else e
+
+    @staticmethod
+    def _u(o):
+        return o.e if isinstance(o, ZInt) else o
+
+    def __add__(self, o):
+        return ZInt(self.e + ZInt._u(o))
+
+    __radd__ = __add__
+
+    def __sub__(self, o):
+        return ZInt(self.e - ZInt._u(o))
+
+    def __rsub__(self, o):
+        return ZInt(ZInt._u(o) - self.e)
+
+    def __mul__(self, o):
+        return ZInt(self.e * ZInt._u(o))
+
+    __rmul__ = __mul__
+
+    def __neg__(self):
+        return ZInt(-self.e)
+
+    def __eq__(self, o):
+        return ZBool(self.e == ZInt._u(o))
+
+    def __ne__(self, o):
+        return ZBool(self.e != ZInt._u(o))
+
+    def __lt__(self, o):
+        return ZBool(self.e < ZInt._u(o))
+
+    def __le__(self, o):
+        return ZBool(self.e <= ZInt._u(o))
+
+    def __gt__(self, o):
+        return ZBool(self.e > ZInt._u(o))
+
+    def __ge__(self, o):
+        return ZBool(self.e >= ZInt._u(o))
+
+    __hash__ = object.__hash__
+
+    def __int__(self):
+        raise SymbolicEscape("int() of symbolic integer %s" % self.e)
+
+    __index__ = __int__
+
+    def __repr__(self):
+        return "ZInt(%s)" % self.e
+
+
+EXTRA = []  # extra z3 constraints (domain of ZInt/ZBool symbols) added to every query; reset with ctx
+
+
+def assume_z3(e):
+    EXTRA.append(e.e if isinstance(e, (ZBool, ZInt)) else e)
+
+
+_old_reset = ctx.reset
+
+
+def _reset_all():
+    _old_reset()
+    del EXTRA[:]
+
+
+ctx.reset = _reset_all
+
+
+def prove_formula(goal, what="", assumptions=(), timeout_ms=20000):
+    """Prove a z3 formula `goal` under context constraints + assumptions: asks for a model of the negation."""
+    g = goal.e if isinstance(goal, ZBool) else goal
+    base = context_constraints() + [a.e if isinstance(a, ZBool) else a for a in assumptions]
+    rs, m, dt = check(base + [z3.Not(g)], timeout_ms)
+    mp_ = {}
+    if m is not None:
+        for d in m.decls():
+            mp_[d.name()] = str(m[d])
+    return Verdict(rs, what, None, mp_ or None, dt, None, 1)
